@@ -222,7 +222,10 @@ StepCdrop(s, e) ==
 
 StepOdrop(s, e) ==
   LET t == <<e.c, e.k>> IN
-  IF t \in s.out THEN [s EXCEPT !.out = @ \ {t}]
+  \* (after a destructor panic the run is outside what the properties describe; output identities may then be
+  \*  produced twice by a child that is polled again, so only children are still tracked)
+  IF s.poison THEN [s EXCEPT !.out = @ \ {t}, !.tok = @ \ {t}]
+  ELSE IF t \in s.out THEN [s EXCEPT !.out = @ \ {t}]
   ELSE IF t \in s.tok
        THEN LET s1 == Chk(s, s.indrop \/ s.unw \/ (s.kind = "tja" /\ s.firstErr # 0), IF s.kind \in CollKinds THEN "C02" ELSE "C06",
                           "an output that was never handed out was destroyed while the collection is alive")
@@ -260,7 +263,7 @@ Finished(s) == Empty(s) /\ (s.kind \in AdapterKinds => s.upDone)
 \* every collection poll that ends without polling a woken child counts against its wait (C13)
 Age(s) ==
   LET s1 == [s EXCEPT !.ch = [c \in DOMAIN @ |-> IF @[c].st = "held" /\ @[c].ob
-                                                  THEN [@[c] EXCEPT !.wt = @ + 1] ELSE @[c]]]
+                                                  THEN [@[c] EXCEPT !.wt = IF @ <= WaitBound(s) THEN @ + 1 ELSE @] ELSE @[c]]]
   IN Chk(s1, \A c \in Held(s1) : s1.ch[c].wt <= WaitBound(s1), "C13",
          "a woken child was not polled within the linear bound of collection polls (starvation)")
 
